@@ -1442,10 +1442,16 @@ static int _json_object_set_string_len(json_object *jso, const char *s, size_t l
 		dstbuf = (char *)malloc(len + 1);
 		if (dstbuf == NULL)
 			return 0;
+		// s may point into the current contents (e.g. the contents plus
+		// their terminator): fill the new buffer before the old one is
+		// released or the inline bytes are overwritten by the pointer.
+		memcpy(dstbuf, (const void *)s, len);
+		dstbuf[len] = '\0';
 		if (JC_STRING(jso)->len < 0)
 			free(JC_STRING(jso)->c_string.pdata);
 		JC_STRING(jso)->c_string.pdata = dstbuf;
-		newlen = -(ssize_t)len;
+		JC_STRING(jso)->len = -(ssize_t)len;
+		return 1;
 	}
 	else if (JC_STRING(jso)->len < 0)
 	{
@@ -1454,7 +1460,9 @@ static int _json_object_set_string_len(json_object *jso, const char *s, size_t l
 		newlen = -(ssize_t)len;
 	}
 
-	memcpy(dstbuf, (const void *)s, len);
+	// s may point into the current contents (a suffix or substring of
+	// them): the ranges may overlap.
+	memmove(dstbuf, (const void *)s, len);
 	dstbuf[len] = '\0';
 	JC_STRING(jso)->len = newlen;
 	return 1;
